@@ -415,7 +415,10 @@ class C15(Family):
                      "CtrlVerif.Props.C15Flag",
                      # source-text tie of the per-entry body of TransferFunction.minreal (py2lean_minreal):
                      # cancellation loop = cancelRoots, body = minrealEntry, tolerance test = closeQ
-                     "CtrlVerif.Props.C15GenMinreal"]
+                     "CtrlVerif.Props.C15GenMinreal",
+                     # the same test instantiated over the reals (abs = sqrt(re^2 + im^2)) = closeQI, the
+                     # Gaussian-rational test the driver runs (negative tolerances included)
+                     "CtrlVerif.Props.C15GenMinrealC"]
 
     def pre_build(self):
         import os
@@ -726,13 +729,14 @@ class C15(Family):
         """(zeros, poles, tol) for one entry of class `cls`: lists of exact (re, im) roots"""
         small = list(MR_SMALL)
         rng.shuffle(small)
-        tol = rng.choice([None, None, None, "0"])
+        tol = rng.choice([None, None, None, None, None, "0", "0", "-1/1000"])   # negative: nothing cancels
         if cls == "small":
             nz, npole = rng.randint(0, 4), rng.randint(0, 4)
             ncommon = rng.randint(0, min(nz, npole))
             zs = small[:ncommon] + small[ncommon:nz]
             ps = small[:ncommon] + small[4:4 + npole - ncommon]
-            tol = rng.choice([None, None, None, "1/1000", "1/1000000", "0"])
+            tol = rng.choice([None, None, None, None, None, None, "1/1000", "1/1000", "1/1000000", "1/1000000",
+                              "0", "0", "-1/1000"])
             return [(z, F(0)) for z in zs], [(q, F(0)) for q in ps], tol
         if cls in ("bigzero", "bigpole", "bigboth", "tiny"):
             # a few roots that are many orders of magnitude larger (smaller) than the O(1) dynamics
@@ -811,7 +815,7 @@ class C15(Family):
             zs = pool[:ncommon] + pool[ncommon:nz]
             ps = pool[:ncommon] + pool[3:3 + npole - ncommon]
             close = lambda v: [x for (a, b) in v for x in ([(a, b), (a, -b)] if b else [(a, b)])]
-            return close(zs), close(ps), rng.choice([None, None, "0", "1/1000"])
+            return close(zs), close(ps), rng.choice([None, None, None, None, "0", "0", "1/1000", "1/1000", "-1/1000"])
         raise ValueError(cls)
 
     def mr_entry(self, rng, cls):
